@@ -21,8 +21,11 @@ GensAll == AllGens
 AllOps == Ops
 ActsC02 == {"Leaf", "Bool", "Force"}
 ActsBool == {"Leaf", "Bool"}
-ActsC03 == {"Leaf", "Bool", "Batch", "Xf", "Copy", "Drop", "Force"}
 ActsAll == AllActs
+NoProps == {0}
+BothProps == {0, 1}
+ActsC03 == {"Leaf", "Bool", "BoolAssign", "Batch", "Xf", "XfAssign", "Copy", "Drop", "Force"}
+ActsC05 == AllActs
 ActsMC == {"Leaf","Bool","Xf","Copy","Assign","Drop","Force","Same","Split","Plane","BoolAssign"}
 Cat2 == { << <<-1,-1,-1>>, <<0,0,1>> >>, << <<-1,-1,0>>, <<1,1,1>> >>, << <<0,0,0>>, <<1,1,1>> >> }
 GensTiny == {"RZ", "MX"}
